@@ -197,6 +197,32 @@ CLAIMED = {
              "interleaved (the shard manager has none on the fields checked). Bound: preemptions, not depth.",
         technique="stateless DFS over thread interleavings of the implementation with iterative preemption bounding (controlled scheduler)",
         design_ref="5/C08", engine="A-micro"),
+    "C10": dict(
+        level="model_checking",
+        text="Macro: explicit-state BFS over fault sequences (depth 5, pool sizes 1-2; thorough depth 7, sizes 1-3; both yamux roles) on the "
+             "real muxProvider.Start loop, multiMuxManager and ManagedMuxSession with real yamux sessions over in-memory pipes in a synctest "
+             "bubble: connect, dial error, yamux setup error, silent peer (ping write timeout), peer closed before the ping, writes failing "
+             "with io.EOF, peer death, local close, lifetime cancellation, time steps. Invariant in every state (registered sessions and open "
+             "connections <= pool size); from every state a healing phase (good connections offered: pool must return to full strength, no "
+             "permit minted) and a shutdown phase (manager closed, table empty, every yamux session and every connection handed over closed, "
+             "no goroutine left). Micro: the provider loop, AddConnection/unregisterMux and session cleanup under the cooperative scheduler "
+             "with a peer death / lifetime cancellation taken at every scheduling point of the connect step (all schedules with <=2 "
+             "preemptions, sharded over worker processes), followed by the same healing/shutdown contracts.",
+        note="Connections come from a harness connProvider: the TCP dial/accept code of establisher.go/receiver.go (backoff.ThrottleRetry, "
+             "listener) is not exercised. yamux internals run free in virtual time.",
+        technique="explicit-state BFS over fault sequences + stateless DFS over interleavings (preemption-bounded) on the implementation",
+        design_ref="5/C10", engine="A-macro"),
+    "C11": dict(
+        level="model_checking",
+        text="Macro: explicit-state BFS over sequences of session additions, local closes, peer deaths and RPCs (depth 5, <=2 sessions; thorough "
+             "depth 7, <=3) on the real multiMuxManager whose listener is the real MultiClientConn, with real yamux sessions and a real gRPC "
+             "client/server pair in a synctest bubble. After every action: dialable endpoint set == registered sessions, CanMakeCalls iff "
+             "non-empty; an RPC succeeds over a live registered session when one exists, fails when none does, and resumes after a new "
+             "session appears. Micro: AddConnection || unregisterMux || MultiClientConn.UpdateState under the cooperative scheduler while "
+             "the first peer dies (all schedules with <=2 preemptions, sharded): at quiescence the dialable set equals the registered set.",
+        note="gRPC and yamux internals run free; an RPC gets 3 tries within 10 s of virtual time before a failure is reported.",
+        technique="explicit-state BFS over add/remove/RPC sequences + stateless DFS over lock interleavings on the implementation",
+        design_ref="5/C11", engine="A-macro"),
     "C20": dict(
         level="model_checking",
         text="Bounded-exhaustive histories of stream opens on the real StreamWorkflowReplicationMessages handler with the real "
@@ -267,10 +293,10 @@ def main():
              "kind_free_text": "explicit-state / bounded-exhaustive enumeration driving the real code in-package"},
             {"name": "B-enum", "path": "/verif/harness", "serves_properties": ["C07", "C12", "C13", "C14", "C15", "C16", "C17", "C18", "C19"],
              "kind_free_text": "bounded-exhaustive enumeration of a finite structurally defined input space against a reference computed independently"},
-            {"name": "A-micro", "path": "/verif/rt/sched.go + /verif/instr (vinstr) + /verif/harness/proxy/c08_registry.go", "serves_properties": ["C08"],
+            {"name": "A-micro", "path": "/verif/rt/sched.go + /verif/instr (vinstr) + /verif/harness/proxy/c08_registry.go", "serves_properties": ["C08", "C10", "C11"],
              "kind_free_text": "cooperative scheduler over AST-rewritten sources (locks, channel ops, go statements become scheduling points); "
                                "stateless depth-first enumeration of schedules with preemption bounding, one synctest bubble per schedule"},
-            {"name": "A-macro", "path": "/verif/harness/proxy/routing_*.go + /verif/rt/pool.go", "serves_properties": ["C01", "C02", "C03", "C04", "C06", "C20"],
+            {"name": "A-macro", "path": "/verif/harness/proxy/routing_*.go + /verif/rt/pool.go", "serves_properties": ["C01", "C02", "C03", "C04", "C06", "C10", "C11", "C20"],
              "kind_free_text": "explicit-state BFS whose transitions are executions of the real goroutines in testing/synctest bubbles; "
                                "successors by replay; 16 persistent GOMAXPROCS=1 worker processes"},
         ],
